@@ -6,7 +6,7 @@ import torch
 
 
 def size(arr):
-    if isinstance(arr, np.ndarray):
+    if isinstance(arr, (np.ndarray, np.generic)):
         return arr.size
     else:
         return arr.nelement()
